@@ -518,8 +518,9 @@ VARIANTS = [
      'fire', 'C04.fifo'),
     ('pipe LIFO again', 'bumble/utils.py', "                packet = self.queue.popleft()\n", "                packet = self.queue.pop()\n", 'fire', 'C04.fifo'),
     ('drained not set when count reaches zero', 'bumble/host.py',
-     "        if connection_state.in_flight == 0:\n            connection_state.drained.set()\n\n        if packet_count <= self._in_flight:",
-     "        if packet_count <= self._in_flight:", 'fire', 'C04.drain'),
+     "            # Nothing in flight and nothing waiting for a free buffer\n            connection_state.drained.set()\n",
+     "            # Nothing in flight and nothing waiting for a free buffer\n            pass\n", 'fire', 'C04.drain'),
+    ('queued packet does not mark the connection busy', 'bumble/host.py', "        self._connection_state[connection_handle].drained.clear()\n        self._check_queue()\n", "        self._check_queue()\n", 'fire', 'C04.drain'),
     ('completion skips pump on over-report branch', 'bumble/host.py',
      "            self._in_flight = 0\n            self._completed = self._queued\n\n        self._check_queue()\n",
      "            self._in_flight = 0\n            self._completed = self._queued\n            self.emit('flow')\n            return\n\n        self._check_queue()\n", 'fire', 'C04.pump'),
@@ -528,7 +529,7 @@ VARIANTS = [
     ('completed pairs swapped', 'bumble/host.py',
      "queue.on_packets_completed(num_completed_packets, connection_handle)", "queue.on_packets_completed(connection_handle, num_completed_packets)", 'fire', 'C04.wiring'),
     ('benign: debug log moved', 'bumble/host.py',
-     "        self._queued += 1\n        self._check_queue()\n", "        self._queued += 1\n        self._check_queue()\n        logger.debug('queued')\n", 'silent', ''),
+     "        self._connection_state[connection_handle].drained.clear()\n        self._check_queue()\n", "        self._connection_state[connection_handle].drained.clear()\n        self._check_queue()\n        logger.debug('queued')\n", 'silent', ''),
     ('over-report releases the full reported count globally', 'bumble/host.py', "            packet_count = connection_state.in_flight\n            connection_state.in_flight = 0\n", "            connection_state.in_flight = 0\n", 'fire', 'C04.over-report'),
     ('benign: clamp written with min()', 'bumble/host.py', "        if packet_count <= connection_state.in_flight:\n            connection_state.in_flight -= packet_count\n        else:", "        if connection_state.in_flight >= packet_count:\n            connection_state.in_flight -= packet_count\n        else:", 'silent', ''),
 ]
